@@ -56,6 +56,7 @@ SCENES = {
     "rb_hit_free": dict(force_free=True, contacts=1, what="spinning rigid ball hitting the plane obliquely, no gravity"),
     "s2s_headon": dict(force_free=True, contacts=1, what="two rigid spheres, head-on, no gravity"),
     "s2s_oblique": dict(force_free=True, contacts=1, what="rigid sphere and point-mass sphere, oblique impact with spin, no gravity"),
+    "two_balls_mixed": dict(force_free=False, contacts=2, what="a heavy ball on a FRICTIONLESS contact registered first, a light sliding and spinning ball on a frictional contact (numbering of active friction laws differs from that of active normal contacts)"),
     "stack": dict(force_free=False, contacts=2, what="ball resting on the plane, second ball dropped onto it slightly off-centre"),
 }
 
@@ -110,6 +111,12 @@ def build(scene, e_N, mu, t0=0.0, options=None):
         b1 = _rb("s1", (0, 0, 0), v=(0.8, 0.1, 0.0), om=(0.5, -1.0, 2.0), p=(1.0, -0.1, 0.2, 0.3))
         b2 = _pm("s2", (2 * R + 0.025, 0.06, -0.04), v=(-0.5, 0.0, 0.1), mass=0.6)
         system.add(b1, b2, Sphere2Sphere(b1, b2, R, R, mu=mu, e_N=e_N, e_F=e_F, name="s2s"))
+    elif scene == "two_balls_mixed":
+        b1 = _rb("heavy", (0, 0, R), mass=3.0)
+        b2 = _rb("light", (0.6, 0.2, R), v=(0.7, -0.4, 0.0), om=(0.0, 2.0, 0.0), mass=0.4)
+        system.add(b1, b2, Force(3.0 * grav, b1, name="grav1"), Force(0.4 * grav, b2, name="grav2"),
+                   Sphere2Plane(system.origin, b1, mu=0.0, r=R, e_N=e_N, e_F=e_F, name="floor_frictionless"),
+                   Sphere2Plane(system.origin, b2, mu=mu, r=R, e_N=e_N, e_F=e_F, name="floor_friction"))
     elif scene == "stack":
         b1 = _rb("lower", (0, 0, R))
         b2 = _rb("upper", (0.012, -0.005, 3 * R + 0.02), v=(0, 0, -0.5), mass=0.5)
